@@ -146,6 +146,14 @@ pub fn eval(cfg: &Cfg, input: &[u8], strong: bool, st: &mut Stats) -> Result<(),
                 }
                 if cap_of(i) < n {
                     st.count("ref_incomplete");
+                    if strong {
+                        st.count("ref_incomplete_in_strong_space");
+                    }
+                    if std::env::var("C10_DEBUG").is_ok() {
+                        if let Enc::Ok(dm) = &enc {
+                            eprintln!("REF-INCOMPLETE strong={} in={} modes={:06b} list={} h={} crate={} ref={} stream={:?}", strong, crate::explore::hex(input), cfg.modes, cfg.list.to_json(), h, cap_of(i), n, dm.data_codewords());
+                        }
+                    }
                 }
                 if strong {
                     st.count("strong_verdicts");
@@ -157,7 +165,12 @@ pub fn eval(cfg: &Cfg, input: &[u8], strong: bool, st: &mut Stats) -> Result<(),
             (None, Some(n)) => {
                 return verdict(format!("refused, but a legal encoding fits a listed symbol of capacity {}", n), st);
             }
-            (Some(_), None) => st.count("ref_incomplete"),
+            (Some(_), None) => {
+                st.count("ref_incomplete");
+                if strong {
+                    st.count("ref_incomplete_in_strong_space");
+                }
+            }
             (None, None) => {
                 if strong {
                     st.count("strong_verdicts");
